@@ -62,6 +62,11 @@ func (l limits) apply() {
 	defs.ListenerLineBufferSize = defs.InputLogMaxRecordBytes * 4
 	// every periodic flush finds its interval elapsed: "time between two cases >= the flush interval", no wall clock involved
 	defs.IntermediateFlushInterval = 0
+	// The pipeline workers' input channels are served by the harness goroutine between the steps of a case instead of
+	// concurrently: give them room for all buffers of one case, so that a send never waits (with the shipped capacity
+	// of 1 the second buffer of a case - e.g. after a forced flush at IntermediateBufferMaxTotalBytes - would sit in
+	// the 60 s channel timeout because nobody receives at that moment).
+	defs.IntermediateBufferedChannelSize = 16
 }
 
 // pipe is one per-key-set pipeline created by the real orchestrator through our PipelineStarter.
